@@ -17,6 +17,7 @@
 #include <signal.h>
 #include <unistd.h>
 #include <sys/wait.h>
+#include <sys/prctl.h>
 #include <gmp.h>
 #include <intbig.h>
 #include <quaternion.h>
@@ -428,6 +429,10 @@ main(void)
             fflush(stdout);
             pid_t pid = fork();
             if (pid == 0) {
+                /* never outlive the driver: die with the parent, and in any case after the alarm */
+                prctl(PR_SET_PDEATHSIG, SIGKILL);
+                if (getppid() == 1)
+                    _exit(0);
                 alarm(secs ? secs : 10);
                 tokenize(line, 2);
                 if (ntok == 0)
